@@ -185,6 +185,22 @@ fn c15_subs() -> Vec<Box<dyn Sub>> {
             max_shrink: 48,
         }),
         Box::new(Check {
+            name: "deep_graphs",
+            quick: 48,
+            thorough: 400,
+            strat: Box::new(|| {
+                use proptest::prelude::*;
+                crate::gen::deep_program().prop_map(|p| ProgCase { prog: p, entropies: vec![] }).boxed()
+            }),
+            body: Box::new(|c: &ProgCase, obs: &mut Obs| {
+                let depth = c.prog.defs.len();
+                obs.class(if depth > 16 { "deep/chain_over_16_levels" } else { "deep/chain_up_to_16_levels" });
+                crate::p_features::features_body(c, obs, &crate::p_features::quick_sets())
+            }),
+            guard_death: false,
+            max_shrink: 32,
+        }),
+        Box::new(Check {
             name: "bitvec_lane",
             quick: 60,
             thorough: 600,
@@ -250,7 +266,7 @@ pub fn all() -> Vec<PropDef> {
         },
         PropDef {
             id: "C15",
-            rule: "generated corpus programs (2-5 derived definitions with every attribute class plus built-in type expressions; a separate lane with BitVec) compiled and run against scale-info built under several feature sets: quick = 6 covering sets (none, std, serde+decode without std, bit-vec+docs, schema, all), thorough = all 48 distinct sets; oracle = byte equality of encode(PortableRegistry) for sets with equal docs setting, and across docs on/off equality after blanking docs plus docs-off contained in docs-on; non-trivial = a (program, pair of differing feature sets), distinct by that triple",
+            rule: "generated corpus programs (2-5 derived definitions with every attribute class plus built-in type expressions; a lane with BitVec; a lane of deep branching graphs: chains of 6-39 derived definitions linked through 1-3 built-in layers and built-in expressions nested 4-35 levels) compiled and run against scale-info built under several feature sets: quick = 6 covering sets (none, std, serde+decode without std, bit-vec+docs, schema, all), thorough = all 48 distinct sets; oracle = byte equality of encode(PortableRegistry) for sets with equal docs setting, and across docs on/off equality after blanking docs plus docs-off contained in docs-on; non-trivial = a (program, pair of differing feature sets), distinct by that triple",
             assumptions: &["no Wasm target is installed: no_std means the host build without the std feature", "the derive feature is always on (the corpus needs it)"],
             subs: c15_subs,
             extra: None,
